@@ -27,6 +27,10 @@ Init == \/ /\ mode = "range" /\ lo \in Lattice /\ hi \in Lattice /\ Leq(lo, hi)
         \/ /\ mode = "reject" /\ lo = Zero /\ hi = [s |-> 1, k |-> 7, d |-> -1]
            /\ genes = Plain /\ layerIsX \in BOOLEAN /\ round \in BOOLEAN /\ integral = TRUE /\ phase = "new"
            /\ dupCells \in BOOLEAN /\ emptyName \in BOOLEAN /\ (dupCells \/ emptyName)
+        \/ /\ mode = "zero" /\ lo = Zero /\ hi = Zero        \* a matrix without any count (sparse: no stored value at all)
+           /\ genes \in {Plain, <<[cls |-> "sym", id |-> 1], [cls |-> "ens", id |-> 2], [cls |-> "unk", id |-> 3]>>}
+           /\ layerIsX \in BOOLEAN /\ round \in BOOLEAN /\ integral = TRUE
+           /\ phase = "new" /\ dupCells = FALSE /\ emptyName = FALSE
         \/ /\ mode = "table" /\ lo = Zero /\ hi = [s |-> 1, k |-> 7, d |-> -1]
            /\ genes \in GeneSets /\ layerIsX \in BOOLEAN /\ round \in BOOLEAN /\ integral \in BOOLEAN
            /\ phase = "new" /\ dupCells = FALSE /\ emptyName = FALSE
